@@ -78,8 +78,11 @@ func (n *Net) RoundTrip(req *http.Request) (*http.Response, error) {
 		if err := n.After(&wr); err != nil {
 			return nil, err
 		}
+		// (a hook may rewrite what the wallet gets to see: somebody between wallet and mint)
+		rb = wr.Resp
 	}
 	res.Body = io.NopCloser(bytes.NewReader(rb))
+	res.ContentLength = int64(len(rb))
 	return res, nil
 }
 
